@@ -54,7 +54,11 @@
 (*    "nocheck"   break without looking at the convergence predicate       *)
 (*                                                                         *)
 (* TLC integers are 32 bit: with samples in -3..3 the largest product is   *)
-(* (n+1)*u <= 9*n^2*(n+1) < 2^31 for n <= 500; TLC aborts on overflow.     *)
+(* (n+1)*u <= 9*n^2*(n+1) < 2^31 for n <= 500; with samples in {-1, 1}     *)
+(* (n+1)*u <= n^2*(n+1) < 2^31 for n <= 1289, which is how far the stop    *)
+(* machine is simulated (NeverExceeds etc. are stated for every mx; longer *)
+(* runs are checked by the harness against the same rule).  TLC aborts on  *)
+(* overflow.                                                               *)
 (***************************************************************************)
 EXTENDS Integers, Sequences, FiniteSets, TLC, Json
 
